@@ -21,6 +21,7 @@ class ParserSessionProp(object):
     nbest_choices = (1, 1, 1, 2, 3, 5, 8)
     fault_classes = ('none', 'inband', 'outofband')
     need_poplog = False
+    replica_rate = {'quick': 0.0, 'thorough': 0.0}
     penalty_choices = (0.0, 0.1, 0.1, 1.0, 10.0, -0.5, -2.0)   # the repository accepts any float
     rich_tokens = False
     rule = ''
@@ -38,6 +39,7 @@ class ParserSessionProp(object):
             'use_beta': rng.random() < 0.3,
             'beta': rng.choice([1e-5, 1e-5, 1e-7]),
             'pooled_bias': rng.choice([0.3, 0.6, 0.9]),
+            'replica_rate': self.replica_rate.get(tier, 0.0),
             'step_cap': rng.choice([20000, 5000]),
             'step_cap_nbest': rng.choice([1500, 4000]),
         }
@@ -118,6 +120,10 @@ class ParserSessionProp(object):
             splits = math.ceil(len(batch) / max(processes, 1))
             n_tasks = math.ceil(len(batch) / splits)
             op['schedule'] = self.gen_schedule(rng, n_tasks, processes)
+            if rng.random() < knobs.get('replica_rate', 0.0):
+                # F6: the workers of this call are other interpreters under other string-hash seeds
+                op['executor_mode'] = 'replica'
+                op['schedule']['replica_seeds'] = [rng.choice([1, 2, 3]) for _ in range(processes)]
         fc = knobs['fault_class']
         if fc == 'inband' and rng.random() < 0.8:
             self.add_inband_fault(rng, world, op)
@@ -189,6 +195,8 @@ class ParserSessionProp(object):
                 doc[pos] = doc[pos] + [Token.of_word('extra')]
             kwargs['doc_override'] = doc
             kwargs['scores_override'] = scores
+        if op.get('executor_mode') and executor_mode == 'inprocess':
+            executor_mode = op['executor_mode']
         rec = session.exec_call(world, op, executor_mode=executor_mode, poplog=self.need_poplog, **kwargs)
         rec.counting = counting
         return rec
@@ -240,6 +248,8 @@ class ParserSessionProp(object):
         bump(stats, 'calls_pooled' if pooled else 'calls_inprocess')
         add_set(stats, 'schedule_signatures', digest(rec.schedule_sig))
         fault = op.get('fault') or {}
+        if pooled and op.get('executor_mode') == 'replica':
+            bump(stats, 'fault:F6_workers_under_other_hashseed')
         if pooled:
             order = rec.pool['completed_order']
             if order != sorted(order):
